@@ -4,6 +4,8 @@
   (W1), unary minus, comparisons, and/or/not, conditional expressions; assignment, augmented assignment (all binary operators),
   tuple (parallel) assignment `a, b = b, a + b` (W5), if/elif/else, while, for-range, break,
   serial write, sleep; a run-once prologue and an optional `while True:` main loop.
+  W6: helper functions `def f(a, b): …; return e` before the prologue, called at statement level (`x = f(args)`, `f(args)`) — `Stmt.call`,
+  `Helper`, `Prog.helpers`, `Prog.resolved`.
   Tuple assignment: the source statement `tuple k xs es` carries the value `k` the parser's `tmp_counter` has when it reaches the
   statement (a derived attribute: `Stmt.numberedFrom` / `Prog.numbered` say that the stored numbers are the parser's, `Stmt.renum`
   computes them; the driver renumbers every program it reads).  The target statement `ctuple k ts xs es` stands for the emitted lines
@@ -52,12 +54,78 @@ inductive Stmt where
   | write (e : Expr)
   | sleep (e : Expr)
   | brk
+  /-- W6: a call of a helper function at statement level, `x = f(args)` (`x = some …`) or `f(args)`.  The statement CARRIES the
+      definition it calls (parameters with their types, body, the expression of the one trailing `return`): a derived attribute like the
+      counter of `tuple` — `Prog.resolved` says that the carried definition is the one of `Prog.helpers` with that name, the driver
+      fills it in (`Prog.resolve`).  A body calls only helpers defined EARLIER, so the carried bodies are finite trees and both
+      semantics run a call by structural descent (plus the statement fuel).  `ls` (the locals with their C++ types) and `rt` (the
+      C++ return type) are target-side attributes filled in by `tr`; in a source statement they are `[]` and `.int`. -/
+  | call (x : Option String) (f : String) (ps : List (String × Ty)) (ls : List (String × Ty)) (rt : Ty)
+         (body : Stmt) (ret : Option Expr) (args : List Expr)
+  deriving DecidableEq, Repr
+
+/-- W6: `def name(ps): body; return ret` (a procedure has `ret = none`).  Source side: `ps` carry the types every call site passes
+    (one signature per helper), `ls = []`, `rt = .int`; target side (`CProg.helpers`): `ls` the locals in declaration order, `rt` the
+    return type of the emitted definition. -/
+structure Helper where
+  name : String
+  ps : List (String × Ty)
+  ls : List (String × Ty) := []
+  rt : Ty := .int
+  body : Stmt
+  ret : Option Expr
   deriving DecidableEq, Repr
 
 structure Prog where
   pre : Stmt
   body : Option Stmt
+  /-- W6: the `def`s of the script, in source order, all before the first statement of the prologue -/
+  helpers : List Helper := []
   deriving DecidableEq, Repr
+
+/-! ### W6: calls carry the definition they call -/
+
+/-- every call in the statement (not looking into the carried bodies) carries the definition `hs` lists under its name, with
+    source-side attributes -/
+def Stmt.callsOk (hs : List Helper) : Stmt → Bool
+  | .seq a b => a.callsOk hs && b.callsOk hs
+  | .ifs _ t e => t.callsOk hs && e.callsOk hs
+  | .whileLoop _ b => b.callsOk hs
+  | .forRange _ _ b => b.callsOk hs
+  | .call _ f ps ls rt body ret _ =>
+    (match hs.find? (·.name == f) with
+     | some h => h.ps == ps && h.body == body && h.ret == ret
+     | none => false) && ls == [] && rt == .int
+  | _ => true
+
+/-- the helpers in order: distinct names, source-side attributes, every body calls EARLIER helpers only (no recursion) -/
+def helpersOk : List Helper → List Helper → Bool
+  | _, [] => true
+  | earlier, h :: rest =>
+    !(earlier.any (·.name == h.name)) && h.ls == [] && h.rt == .int && h.body.callsOk earlier && helpersOk (earlier ++ [h]) rest
+
+def Prog.resolved (p : Prog) : Bool :=
+  helpersOk [] p.helpers && p.pre.callsOk p.helpers && (match p.body with | none => true | some b => b.callsOk p.helpers)
+
+/-- fill in the carried definitions from the names (the driver reads calls with an empty carried definition) -/
+def Stmt.resolve (hs : List Helper) : Stmt → Stmt
+  | .seq a b => .seq (a.resolve hs) (b.resolve hs)
+  | .ifs c t e => .ifs c (t.resolve hs) (e.resolve hs)
+  | .whileLoop c b => .whileLoop c (b.resolve hs)
+  | .forRange i n b => .forRange i n (b.resolve hs)
+  | .call x f ps ls rt body ret args =>
+    (match hs.find? (·.name == f) with
+     | some h => .call x f h.ps [] .int h.body h.ret args
+     | none => .call x f ps ls rt body ret args)
+  | s => s
+
+def resolveHelpers : List Helper → List Helper → List Helper
+  | earlier, [] => earlier
+  | earlier, h :: rest => resolveHelpers (earlier ++ [{ h with body := h.body.resolve earlier }]) rest
+
+def Prog.resolve (p : Prog) : Prog :=
+  let hs := resolveHelpers [] p.helpers
+  { pre := p.pre.resolve hs, body := p.body.map (·.resolve hs), helpers := hs }
 
 /-! ### tuple assignment: the temporaries and the parser's counter -/
 
@@ -101,7 +169,7 @@ def Stmt.renum : Nat → Stmt → Stmt
   | _, s => s
 
 def Prog.renum (p : Prog) : Prog :=
-  { pre := p.pre.renum 0, body := p.body.map fun b => b.renum (p.pre.tmpEnd 0) }
+  { pre := p.pre.renum 0, body := p.body.map (fun b => b.renum (p.pre.tmpEnd 0)), helpers := p.helpers }
 
 /-! ### values, stores, events (shared by both semantics) -/
 
